@@ -162,6 +162,10 @@ class Module:
         self.digest = hashlib.sha256(src.encode("utf-8")).hexdigest()
         self.tree = ast.parse(src, filename=path)
         self.lines = src.splitlines()
+        # helpers that the reference tree does not know (the product of an `extract function` refactoring) are inlined back
+        # into their call sites, in memory only (see sa/inline.py)
+        from . import inline
+        self.inlined = inline.inline_new_helpers(self.tree, name)
         # surface normalisation (in memory only): annotated assignments inside functions become plain ones, statements
         # that only talk to the standard library's logging become `pass` - both are behaviour-neutral spellings
         self.normalised = _SurfaceNormaliser(_stdlib_logger_names(self.tree)).run(self.tree)
